@@ -6,6 +6,7 @@ and pattern-quantified axioms. No sequence, string or floating point theory (DES
 from __future__ import annotations
 
 import itertools
+import os
 import time
 
 import z3
@@ -61,7 +62,7 @@ _str_lits: dict[str, z3.ExprRef] = {}
 def str_lit(s: str):
     """A distinct constant of sort Str per Python literal (distinctness asserted in PathSolver)."""
     if s not in _str_lits:
-        _str_lits[s] = z3.Const("strlit!" + repr(s), Str)
+        _str_lits[s] = z3.Const("strlit_" + s.encode("utf-8", "surrogatepass").hex(), Str)
     return _str_lits[s]
 
 
@@ -70,8 +71,32 @@ _bytes_lits: dict[bytes, z3.ExprRef] = {}
 
 def bytes_lit(b: bytes):
     if b not in _bytes_lits:
-        _bytes_lits[b] = z3.Const("byteslit!" + b.hex(), Bytes)
+        _bytes_lits[b] = z3.Const("byteslit_" + b.hex(), Bytes)
     return _bytes_lits[b]
+
+
+_DECLS_MEMO: dict = {}
+
+
+def decl_names(e) -> set:
+    """Names of the uninterpreted functions / constants applied in e (memoised per AST)."""
+    if not isinstance(e, z3.ExprRef):
+        return set()
+    eid = e.get_id()
+    hit = _DECLS_MEMO.get(eid)
+    if hit is not None:
+        return hit[1]
+    out = set()
+    if z3.is_quantifier(e):
+        out |= decl_names(e.body())
+    elif z3.is_app(e):
+        d = e.decl()
+        if d.kind() == z3.Z3_OP_UNINTERPRETED and e.num_args() > 0:
+            out.add(d.name())
+        for ch in e.children():
+            out |= decl_names(ch)
+    _DECLS_MEMO[eid] = (e, out)
+    return out
 
 
 def is_int_term(v) -> bool:
@@ -154,17 +179,43 @@ class PathSolver:
         self._pur_memo: dict = {}
         self._divmod: dict = {}
         self._divs_of: dict = {}
+        # Axioms are activated lazily: a quantified axiom enters the prove solver only once one of its head symbols
+        # occurs in the path condition or in a query (an axiom about symbols that do not occur is irrelevant, and some
+        # quantified axioms make z3 burn its whole budget before answering "unknown" on satisfiable queries).
         self.has_quantified_axioms = False
+        self._lazy = []
+        self._seen_syms: set = set()
         for a in axioms:
-            self.s.add(a)
-            if z3.is_quantifier(a):
-                self.has_quantified_axioms = True
-            else:
+            syms = None
+            if isinstance(a, tuple):
+                a, syms = a
+            if not z3.is_quantifier(a):
+                self.s.add(a)
                 self.sf.add(a)
+            elif syms:
+                self._lazy.append([a, set(syms), False])
+            else:
+                self.s.add(a)
+                self.has_quantified_axioms = True
 
     def _both(self, f):
         self.s.add(f)
         self.sf.add(f)
+        self._activate(f)
+
+    def _activate(self, f):
+        if not self._lazy:
+            return
+        new = decl_names(f) - self._seen_syms
+        if not new:
+            return
+        self._seen_syms |= new
+        for ent in self._lazy:
+            if not ent[2] and ent[1] & new:
+                ent[2] = True
+                self.s.add(ent[0])
+                self.has_quantified_axioms = True
+                self._activate(ent[0])
 
     # ---- div/mod purification -------------------------------------------------------------------
     # z3 is slow or incomplete on div/mod by large constants (measured: `unknown` after 20 s on the C09 interval
@@ -247,17 +298,47 @@ class PathSolver:
         STATS.queries += 1
         t0 = time.time()
         solver = self.s if prove else self.sf
-        solver.set("timeout", timeout or (self.prove_timeout if prove else self.feas_timeout))
+        budget = timeout or (self.prove_timeout if prove else self.feas_timeout)
+        # 1) the incremental solver with a short budget: answers the vast majority of queries in about a millisecond
+        solver.set("timeout", min(budget, 1000))
         if extra is None:
+            px = None
             r = solver.check()
         else:
             self._hold.append(extra)
             px = self.purify(extra)
+            self._activate(px)
             solver.push()
             solver.add(px)
             r = solver.check()
             solver.pop()
-        STATS.solver_s += time.time() - t0
+        reason = solver.reason_unknown() if r == z3.unknown else ""
+        if r == z3.unknown and ("timeout" in reason or "cancel" in reason or "resource" in reason or "max." in reason):
+            # 2) The incremental core has no preprocessing (no equation solving) and gets lost on chains of linear
+            # definitions with large coefficients (digit decompositions) that a one-shot solver eliminates at once
+            # (measured: unknown after 10 s incrementally, unsat in 10 ms one-shot): re-ask a fresh solver.
+            quantified = prove and (any(ent[2] for ent in self._lazy) or self.has_quantified_axioms)
+            attempts = [z3.Solver()] if quantified else [z3.Then("simplify", "solve-eqs", "smt").solver(), z3.Solver()]
+            for fresh in attempts:
+                if quantified:
+                    fresh.set("smt.mbqi", False)
+                fresh.set("timeout", budget)
+                fresh.add(*solver.assertions())
+                if px is not None:
+                    fresh.add(px)
+                r = fresh.check()
+                if r != z3.unknown:
+                    break
+            STATS.fresh = getattr(STATS, "fresh", 0) + 1
+        dt = time.time() - t0
+        STATS.solver_s += dt
+        if dt > 2.0 and os.environ.get("PYVC_TRACE_SLOW"):
+            print(f"[slow query] {dt:.1f}s prove={prove} result={r} assertions={len(solver.assertions())}", flush=True)
+            d = z3.Solver()
+            d.add(*solver.assertions())
+            if px is not None:
+                d.add(px)
+            open(f"/tmp/slow_{'p' if prove else 'f'}.smt2", "w").write(d.to_smt2())
         self._cache[key] = r
         return r
 
